@@ -6,6 +6,23 @@ VERIF = os.path.dirname(os.path.dirname(os.path.abspath(__file__)))
 
 # property id -> (level, technique, level text, level note, design ref)
 CHECKS = {
+    "C01": ("exploration",
+            "Hypothesis-generated and enumerated stanza trees, encode->decode round trip judged by a strict tree comparator",
+            "Round trip through the real encoder/decoder (and two coder layers back to back) over every dictionary word, "
+            "every packed-string length, boundary sizes of all three length classes and generated recursive trees; the "
+            "oracle is a strict structural comparator written in the harness (the library's own __eq__ is not used). "
+            "Search, not proof.",
+            "Trusts the harness comparator and tree materialiser; strings restricted to the quantified domain.",
+            "5/C01"),
+    "C02": ("exploration",
+            "differential testing against an independent reference codec driven by generated encoder choice vectors; "
+            "dictionary enumerated entry by entry",
+            "Both directions against a from-scratch implementation of the format: library bytes must decode in the strict "
+            "reference decoder, and every permitted alternative encoding produced by the reference encoder must decode in "
+            "the library to the same tree; the 1260 dictionary entries are compared completely by table and by behaviour.",
+            "The reference dictionary is a pinned copy (no-drift only); the reference codec is trusted after passing the "
+            "repository's fixture vectors and its own round trip.",
+            "5/C02"),
     "C05": ("exploration",
             "exhaustive enumeration of stream partitions + Hypothesis-generated streams against a concatenation model",
             "Every partition of every stream of 1-3 frames of length 1-3 (0.7 M cases; lengths 1-4 in the thorough tier) is "
